@@ -14,11 +14,11 @@ void x___assert_fail(u8 *a, u8 *b, u32 c, u8 *d) { (void)a; (void)b; (void)c; (v
 #ifndef C12_VETO_MAX
 #define C12_VETO_MAX 0
 #endif
-static u8 c12_T_veto[4][SP_N + 1];
-static int c12_veto(u32 rule, u64 begin) { return c12_T_veto[rule & 3][begin <= SP_N ? begin : 0]; }
+static u8 c12_T_veto[8][SP_N + 1];     /* rows 0..3: sym<0..3>, rows 4..7: named<0..3> (and other ids >= 100) */
+static int c12_veto(u32 rule, u64 begin) { return c12_T_veto[(rule >= 100 ? 4 : 0) + (rule & 3)][begin <= SP_N ? begin : 0]; }
 u32 x_verif_veto(u32 rule, u64 begin, u64 end) { (void)end; return (u32)c12_veto(rule, begin); }
 static void c12_setup(void) {
-  for (int r = 0; r < 4; ++r) for (u64 p = 0; p <= SP_N; ++p) c12_T_veto[r][p] = (u8)IN(C12_VETO_MAX ? 0 : 1, C12_VETO_MAX ? C12_VETO_MAX : 1);
+  for (int r = 0; r < 8; ++r) for (u64 p = 0; p <= SP_N; ++p) c12_T_veto[r][p] = (u8)IN(C12_VETO_MAX ? 0 : 1, C12_VETO_MAX ? C12_VETO_MAX : 1);
 }
 
 /* ------------------------------------------------------------------ reference node list (pre-order) */
